@@ -15,7 +15,7 @@ PROPERTY = "C12"
 LEVEL = "exploration"
 RULE = ("LHS: 1..4 parameters x N=1..4 with every pair of column permutations (<=2 columns; otherwise every single permutation "
         "shared by the columns and every rotation) x uniform draws all-0 / all-.5 / all-(1-2^-53) and every <=2 cells deviating; "
-        "N=5..8 with seeded permutations; Halton: N<=64, 1..6 parameters; grid: k=2..5, 1..3 parameters; random: counts 0..5 with "
+        "N=5..8 with seeded permutations; Halton: N<=64 over all boxes plus every N = b^e-1, b^e, b^e+1 <= 1100 (thorough 60000) for the six bases, 1..6 parameters; grid: k=2..5 for 1..3 parameters, k=6..60 (thorough 120) for one parameter over 11 boxes, k=6..14 for two; random: counts 0..5 with "
         "draws at the extremes; boxes from the common list. Non-trivial = N>=2 or >=2 parameters; distinct = distinct configurations.")
 ASSUMPTIONS = ["numpy's RandomState.rand/permutation are replaced by scripted answers with the same contract "
                "(values in [0,1), a permutation of range(N))",
@@ -172,9 +172,17 @@ def check_halton(nparams, shift, N):
     return []
 
 
+EXTRA_BOXES = ([-2.5, 5.0], [-5.12, 5.12], [6.0, 10.0], [-1.0, 1.0])
+
+
+def grid_params(nparams, shift):
+    allb = list(BOXES) + list(EXTRA_BOXES)
+    return [{"name": "p%d" % i, "bounds": list(allb[(i + shift) % len(allb)])} for i in range(nparams)]
+
+
 def check_grid(nparams, shift, k):
     from artap.operators import UniformGenerator
-    ps = params(nparams, shift)
+    ps = grid_params(nparams, shift)
     g = UniformGenerator(ps)
     g.init(k)
     desc = "grid nparams=%d shift=%d k=%d" % (nparams, shift, k)
@@ -288,16 +296,27 @@ def _shard(shard, col: Collector):
                             check_lhs_seeded(nparams, shift, N, s))
         col.sample({"kind": "lhs-seeded", "nparams": 3, "N": 8, "seed": seed * 4}, 1)
     elif kind == "halton":
-        _, nparams = shard
+        nparams = shard[1]
         for shift in range(len(BOXES)):
             for N in (1, 2, 3, 7, 8, 9, 27, 64):
                 rec("halton", {"nparams": nparams, "shift": shift, "N": N}, check_halton(nparams, shift, N), True)
+        # sample counts at and around powers of the prime bases (digit-count boundaries of the radical inverse)
+        big = sorted({b ** e + d for b in (2, 3, 5, 7, 11, 13) for e in range(2, 11) for d in (-1, 0, 1) if 64 < b ** e + d <= shard[2]})
+        for N in big:
+            rec("halton", {"nparams": nparams, "shift": 0, "N": N}, check_halton(nparams, 0, N), True)
         col.sample({"kind": "halton", "nparams": nparams, "N": 64}, 1)
     elif kind == "grid":
         for nparams in (1, 2, 3):
             for k in (2, 3, 4, 5):
                 for shift in range(len(BOXES)):
                     rec("grid", {"nparams": nparams, "shift": shift, "k": k}, check_grid(nparams, shift, k), True)
+        # many level counts for one parameter (k-1 divisions that are not exactly representable), a few for two
+        for k in range(6, shard[1] + 1):
+            for shift in range(len(BOXES) + len(EXTRA_BOXES)):
+                rec("grid", {"nparams": 1, "shift": shift, "k": k}, check_grid(1, shift, k), True)
+        for k in range(6, 15):
+            for shift in (0, len(BOXES), len(BOXES) + 1):
+                rec("grid", {"nparams": 2, "shift": shift, "k": k}, check_grid(2, shift, k), True)
         col.sample({"kind": "grid", "nparams": 2, "k": 4}, 1)
     elif kind == "random":
         for nparams in (1, 2, 3, 4):
@@ -337,7 +356,8 @@ def run(tier, seed):
             for shift in shifts:
                 shards.append(("lhs", nparams, N, shift))
     shards += [("lhs_seeded", seed * 2 + i) for i in range(2 if tier != "thorough" else 8)]
-    shards += [("halton", n) for n in (1, 2, 3, 4, 5, 6)] + [("grid",), ("random",)]
+    nmax = 60000 if tier == "thorough" else 1100
+    shards += [("halton", n, nmax) for n in (1, 2, 3, 4, 5, 6)] + [("grid", 120 if tier == "thorough" else 60), ("random",)]
     shards.sort(key=lambda s: -(s[1] * s[2] if s[0] == "lhs" else 0))
     col = run_shards(_shard, shards)
     return col, {"exhaustive": True, "boxes": BOXES}
